@@ -306,6 +306,7 @@ pub fn run(o: &Opts, stats: &mut Stats) -> Option<usize> {
         if !o.mine(i) {
             continue;
         }
+        set_now_cfg(serde_json::to_string(c).unwrap());
         stats.configs += 1;
         stats.executions += 1;
         let r = std::panic::catch_unwind(|| {
